@@ -72,6 +72,9 @@ def report_trace(ctx, st, what):
 
 def corpus_items(ctx, pool):
     scripts = [s for s in T.corpus_scripts(REPO_TESTS) if s["struct_paths"] and s["dp_paths"]]
+    if ctx.tier != "thorough":   # quick: a sample of the candidate files is parsed
+        ctx.rng.shuffle(scripts)
+        scripts = sorted(scripts[:70], key=lambda x: x["path"])
     splits = pool.map([{"kind": "split", "path": s["path"]} for s in scripts])
     multi = []
     for s, sp in zip(scripts, splits):
@@ -80,7 +83,7 @@ def corpus_items(ctx, pool):
     ctx.cov["corpus_multi_statement_with_data"] = len(multi)
     if ctx.tier != "thorough":
         ctx.rng.shuffle(multi)
-        multi = multi[:40]
+        multi = multi[:24]
     items = []
     for i, s in enumerate(sorted(multi, key=lambda x: x["path"])):
         rop = bool(i % 2)
@@ -125,8 +128,8 @@ def run(ctx):
         small = [c for c in runnable if c["cat"].startswith("shape") and c["shape"][0] <= 3]
         rest = [c for c in runnable if not (c["cat"].startswith("shape") and c["shape"][0] <= 3)]
         ctx.rng.shuffle(rest)
-        budget = 20000 if ctx.tier == "thorough" else 420
-        chosen = small + [c for c in rest if not c["cat"].startswith("shape")][:(2000 if ctx.tier == "thorough" else 80)]
+        budget = 8000 if ctx.tier == "thorough" else 260
+        chosen = small + [c for c in rest if not c["cat"].startswith("shape")][:(2000 if ctx.tier == "thorough" else 60)]
         chosen += [c for c in rest if c["cat"].startswith("shape")][:max(0, budget - len(chosen))]
         rops = [bool(i % 2) for i in range(len(chosen))]
         items = run_items(ctx, chosen, rops)
